@@ -187,6 +187,17 @@ def run(chk, tier, seed):
         good_ps = "AAAAAA-CUCYWA-AAOBM6-PNYLRK-EAMBQE-COTVSJ-XOUVLX-X7OZQP-VCB3ZS-LZXCEC-JHA4GH-3V6UHQ"
     for s in text_mutations(good_ps, rng, "A0=-a "):
         lines.append("S2D " + (s.encode().hex() or "-"))
+    # PubString.tla: string = base32(body || crc32(body)).  Character mutations never get past the CRC, so every body LENGTH (0..60 octets, the
+    # valid one is 8 + imprint) is also offered with a correct CRC, plain and with group separators
+    import base64, zlib
+    for L in range(0, 61):
+        for alg in (1, 0, 0x7e):
+            body = bytearray(rng.randbytes(L))
+            if L > 8: body[8] = alg
+            raw = bytes(body) + zlib.crc32(bytes(body)).to_bytes(4, "big")
+            txt = base64.b32encode(raw).decode().rstrip("=")
+            for t in (txt, "-".join(txt[i:i + 6] for i in range(0, len(txt), 6))):
+                lines.append("S2D " + (t.encode().hex() or "-"))
     outs, crashes = vlib.run_lines(exe_pub, lines)
     for idx, rc, err in crashes:
         chk.violation("memory-error:pubstring", "publication string parser failed on %r\n%s" % (bytes.fromhex(lines[idx].split()[1].replace("-", "")), err[-2000:]), dict(line=lines[idx]))
